@@ -19,7 +19,9 @@ from iOpt.evolvent.evolvent import Evolvent
 PROPERTY = "C17"
 LEVEL = "model_checking"
 
-CONFIGS = [(1, 10), (2, 3), (3, 2), (5, 2), (2, 10), (4, 3)]
+# (N, m, how the object is first constructed): "B1" = float lists of box B1; "int" = Python int lists [-1]*N, [1]*N
+CONFIGS = [(1, 10, "B1"), (2, 3, "B1"), (3, 2, "B1"), (5, 2, "B1"), (2, 3, "int"), (5, 11, "B1"), (1, 10, "int"),
+           (2, 10, "B1"), (4, 3, "B1")]
 
 
 def alphabet(N):
@@ -78,11 +80,11 @@ def show(op):
     return f"{name}({arg!r})"
 
 
-def execute(N, m, seq, ops):
+def execute(N, m, seq, ops, init="B1"):
     """replay a call sequence on one fresh object, checking the oracle at every call; -> (messages, ev)"""
-    lo, up = box("B1", N)
+    lo, up = box("B1", N) if init == "B1" else ([-1] * N, [1] * N)
     ev = Evolvent(lo, up, N, m)
-    cur = (np.array(lo), np.array(up))
+    cur = (np.array(lo, dtype=float), np.array(up, dtype=float))
     returned = []
     msgs = []
     for step, k in enumerate(seq):
@@ -115,9 +117,9 @@ def execute(N, m, seq, ops):
 
 
 def bfs(task):
-    N, m = task
+    N, m, init = task
     ops = alphabet(N)
-    msgs0, ev0 = execute(N, m, [], ops)
+    msgs0, ev0 = execute(N, m, [], ops, init)
     seen = {digest(vars(ev0)): []}
     frontier = [[]]
     transitions = 0
@@ -128,10 +130,10 @@ def bfs(task):
         for seq in frontier:
             for k in range(len(ops)):
                 s2 = seq + [k]
-                msgs, ev = execute(N, m, s2, ops)
+                msgs, ev = execute(N, m, s2, ops, init)
                 transitions += 1
                 for msg in msgs:
-                    viol.append(dict(driver="seq", N=N, m=m, seq=s2, message=msg, sig={}))
+                    viol.append(dict(driver="seq", N=N, m=m, init=init, seq=s2, message=msg, sig={}))
                 if msgs:
                     continue
                 d = digest(vars(ev))
@@ -145,17 +147,17 @@ def bfs(task):
 
 
 def unmerged(task):
-    N, m, L, first = task
+    N, m, init, L, first = task
     ops = alphabet(N)
     viol = []
     n = 0
     for tail in itertools.product(range(len(ops)), repeat=L - 1):
         seq = [first] + list(tail)
-        msgs, ev = execute(N, m, seq, ops)
+        msgs, ev = execute(N, m, seq, ops, init)
         n += 1
         # only the last call is new (shorter sequences are enumerated by smaller L)
         for msg in msgs:
-            viol.append(dict(driver="seq", N=N, m=m, seq=seq, message=msg, sig={}))
+            viol.append(dict(driver="seq", N=N, m=m, init=init, seq=seq, message=msg, sig={}))
         if len(viol) > 10:
             break
     return n, viol
@@ -164,17 +166,17 @@ def unmerged(task):
 def run(ctx):
     res = Result()
     th = ctx.thorough
-    cfgs = CONFIGS if th else CONFIGS[:4]
+    cfgs = CONFIGS if th else CONFIGS[:6]
     out = pmap(bfs, cfgs)
     states = trans = 0
     closed = {}
-    for (N, m), (ns, nt, viol, cl) in zip(cfgs, out):
+    for (N, m, init), (ns, nt, viol, cl) in zip(cfgs, out):
         states += ns
         trans += nt
-        closed[f"N={N},m={m}"] = dict(states=ns, transitions=nt, closed=cl)
+        closed[f"N={N},m={m},built from {init}"] = dict(states=ns, transitions=nt, closed=cl)
         res.merge_violations(viol)
     L = 5 if th else 4
-    tasks = [(N, m, l, f) for (N, m) in cfgs for l in range(1, L + 1) for f in range(len(alphabet(N)))]
+    tasks = [(N, m, init, l, f) for (N, m, init) in cfgs for l in range(1, L + 1) for f in range(len(alphabet(N)))]
     seqs = 0
     for t, (n, viol) in zip(tasks, pmap(unmerged, tasks)):
         seqs += n
@@ -194,5 +196,5 @@ def run(ctx):
 
 
 def replay(rec):
-    msgs, _ = execute(rec["N"], rec["m"], rec["seq"], alphabet(rec["N"]))
+    msgs, _ = execute(rec["N"], rec["m"], rec["seq"], alphabet(rec["N"]), rec.get("init", "B1"))
     return msgs
